@@ -3,16 +3,22 @@
    verdicts of validate_data(graph) / validate_data(lineage) on it, and the parts of the metadata that
    smeta does not hold (lineage property, axis types and units, related image, TrackMate extras). *)
 From Geff Require Export Base Dtype Vlen Tree Validate Write Read GraphVal TrackMate.
+From Geff Require TrackMateLemmas TrackMateProps TrackMateFast.
 Open Scope list_scope.
 
-Inductive input := IConv (d : tm) (dspots dtracks overwrite : bool) (pre : option znode).
+(* IConvW: the same call, with what the generator meant the document to be -- Some true: a well-formed document with
+   connected tracks (the premises wf_tm / tracks_connected of the theorems of props/C16.v), Some false: a document that
+   violates them, None: no claim.  `check` evaluates the Coq decision procedures wf_tmb / tracks_connectedb on it. *)
+Inductive input :=
+| IConv (d : tm) (dspots dtracks overwrite : bool) (pre : option znode)
+| IConvW (intent : option bool) (d : tm) (dspots dtracks overwrite : bool) (pre : option znode).
 Inductive obs :=
 | OErr (e : exn)
 | OOk (back : res (mgraph * bool * res bool)) (x : tmextra).
 
 Definition model (i : input) : obs :=
   match i with
-  | IConv d ds dt ow pre =>
+  | IConv d ds dt ow pre | IConvW _ d ds dt ow pre =>
       let (post, r) := run (from_trackmate d ds dt ow) pre in
       match r with
       | Err e => OErr e
@@ -49,4 +55,12 @@ Definition obs_eqb (a b : obs) : bool :=
   | OOk b1 x1, OOk b2 x2 => res_eqb back_eqb b1 b2 && tmextra_eqb x1 x2
   | _, _ => false
   end.
-Definition check (c : input * obs) : bool := obs_eqb (model (fst c)) (snd c).
+(* the premises of the theorems, decided on the document the model was given, against the generator's intent *)
+(* TrackMateFast.premises_fast_sound : premises_fast d = true -> wf_tm d /\ tracks_connected d *)
+Definition premises_hold (d : tm) : bool := TrackMateFast.premises_fast d.
+Definition intent_ok (i : input) : bool :=
+  match i with
+  | IConvW (Some b) d _ _ _ _ => Bool.eqb (premises_hold d) b
+  | _ => true
+  end.
+Definition check (c : input * obs) : bool := obs_eqb (model (fst c)) (snd c) && intent_ok (fst c).
